@@ -21,9 +21,9 @@ T = {
  "C04": ("bounded-exhaustive enumeration of modules x name-hint assignments + complete corpus enumeration",
          "Every verified module of the bounded generator and every verified chunk of the .mlir corpus is printed generically, parsed in a fresh context, compared by canonical form and re-printed.",
          "canon normalisation of default properties follows the property text", "§6 C04"),
- "C05": ("complete corpus enumeration + deviation-1 neighbourhood of op instances",
-         "Every verified corpus chunk is printed in custom and generic form; both must parse back to IR with the canonical form of the original.",
-         "coverage bounded by the ops the corpus instantiates (reported)", "§6 C05"),
+ "C05": ("complete corpus enumeration + deviation-1 neighbourhood of op instances + generator tree of synthetic declarative-format definitions x all instances",
+         "Every verified corpus chunk (plus a hand-written supplement) and every instance of every generated declarative-format definition (optional groups, nesting, else-branches, variadics, default-valued properties) is printed in custom and generic form; both must parse back to IR with the canonical form of the original.",
+         "registered-op coverage bounded by the ops the corpus instantiates (reported); format-engine coverage by the grammar in props/c05_formats.py", "§6 C05"),
  "C06": ("generator-tree enumeration of builtin attribute values with boundary payloads (all f16/bf16 bit patterns)",
          "Every generated attribute/type is printed, parsed in a fresh context and compared by equality and by independently extracted payload bits.",
          "bit extraction via struct in the harness", "§6 C06"),
@@ -60,21 +60,21 @@ T = {
  "C17": ("complete enumeration of registered passes x corpus chunks with hard timeouts",
          "Every (pass, verified chunk) pair of the tier's finite list is executed; a pass that returns must leave IR that verifies, satisfies the structural invariant, and round-trips through the generic printer.",
          "pass exceptions/timeouts are reported failures per the property", "§6 C17"),
- "C18": ("enumeration of pass classes x field value alphabets; bounded-exhaustive pipeline token strings",
-         "Every accepted option assignment from the per-type alphabets is printed and re-parsed; every token string up to the bound is parsed and its outcome class checked.",
+ "C18": ("enumeration of pass classes x field value alphabets, multi-entry pipelines, spec-reuse histories; bounded-exhaustive pipeline token strings",
+         "Every accepted option assignment from the per-type alphabets is printed and re-parsed, alone and inside 2-3 entry pipelines; every parsed spec is instantiated twice and must stay unchanged; every token string up to the bound is parsed and its outcome class checked.",
          "floats compared by bits", "§6 C18"),
- "C19": ("bounded-exhaustive program enumeration; independent liveness + symbolic register machine",
-         "Every generated single-block function is allocated under restricted register pools; interference and symbolic execution equivalence are checked at every program point.",
-         "mc/regmachine.py", "§6 C19"),
+ "C19": ("bounded-exhaustive program enumeration (straight-line, loops, depth-2 loop nests, pre-allocated registers read only in nested bodies) x register pools; independent liveness + register-semantics execution",
+         "Every generated function is allocated under every register pool of the bound; interference is checked at every program point (including loop back-edges) and the allocated code is executed with register semantics against the pre-allocation execution.",
+         "register machine, liveness and loop execution (>= 2 iterations per loop) are written in props/c19.py, independent of the allocator", "§6 C19 / §9"),
  "C20": ("fully exhaustive enumeration of move graphs x free-register sets on a symbolic register machine",
          "Every parallel move over up to N registers per class is lowered by the real pattern and the emitted sequence executed symbolically (xor = symmetric difference).",
-         "mc/regmachine.py", "§6 C20"),
+         "symbolic register machine in props/c20.py", "§6 C20"),
  "C21": ("bounded-exhaustive program enumeration; native execution under an ABI-checking trampoline",
          "Every generated function is compiled with the documented pipeline, assembled with the system assembler and executed on the boundary argument set; results and callee-saved registers are compared.",
          "system gcc/as; mc/refsem.py", "§6 C21"),
  "C22": ("bounded-exhaustive program enumeration executed on an independent RV32 model of the emitted assembly text",
          "Every generated program is lowered with the in-repo pipeline and its assembly executed on the model for all boundary inputs; canonicalization is checked on every single op / dependent pair at boundary constants.",
-         "mc/regmachine.py RV32 model", "§6 C22"),
+         "mc/rvmodel.py: RV32IMFD value-semantics model of the emitted assembly text, written from the ISA manual", "§6 C22"),
  "C23": ("bounded-exhaustive llvm-dialect program enumeration; llvmlite verification and MCJIT execution",
          "Every generated llvm function is translated, verified by LLVM, JIT-compiled and executed on boundary inputs against a reference LLVM semantics.",
          "llvmlite MCJIT; reference semantics in the harness", "§6 C23"),
@@ -82,7 +82,7 @@ T = {
          "Every CFG with up to n blocks is built from real Blocks; dominates / strictly_dominates / PostOrderIterator are compared with path-definition references.",
          "reference reachability in props/c24.py", "§6 C24"),
  "C25": ("stateless exploration of the dataflow solver under a worklist chooser with iterated deviation bound",
-         "For every generated block every worklist order with at most k deviations is executed; the final liveness must equal the reference and be identical across schedules.",
+         "For every generated block (ops with 0-3 results, pure / read-only / effectful) every worklist order with at most k deviations is executed; the final liveness must equal the reference and be identical across schedules.",
          "solver worklist substituted from the harness", "§6 C25"),
  "C26": ("generator-tree enumeration of affine expressions evaluated on the full box",
          "Every expression tree up to the depth bound built with the operator overloads is evaluated on all points of the box against a reference evaluator, also after simplify / compose / replace / print-parse.",
@@ -90,8 +90,8 @@ T = {
  "C27": ("generator-tree enumeration of PDL patterns x payload modules, differential between the two execution paths",
          "Every generated pattern is applied to every payload directly and via pdl_interp conversion; canonical forms of the results must agree.",
          "mc/canon.py", "§6 C27"),
- "C28": ("bounded-exhaustive pure arith programs x rule sets, reference interpreter on boundary inputs",
-         "Every generated function is run through the eqsat pipelines; the extracted program must verify and agree with the source under the reference semantics.",
+ "C28": ("bounded-exhaustive pure arith programs (incl. property twins, two-function modules) x rule sets x pattern orders x cost models, reference interpreter on boundary inputs",
+         "Every generated module is run through the eqsat pipelines under every cost model of the bound; each extracted function must verify, be acyclic and agree with its own source under the reference semantics.",
          "mc/refsem.py", "§6 C28"),
  "C29": ("fully exhaustive enumeration of nested symbol-table trees x references x lookup origins",
          "Every module tree up to the bound is built and every reference is looked up from every operation with all lookup entry points against a reference resolver.",
